@@ -1,7 +1,239 @@
-/- stub: overwritten by the builder of this engine -/
+/-
+Driver for E4/constraints (C07, C02, C11).
+
+{"op":"eval","tree":T,"cons":C,"scope":[[name,path]],"locals":[[x,path]],"cfg":{"binding":"copy"|"shared","skip":bool}?}
+   → {"typed":b,"fit":{"ok":{solved,total,success,num,den}}|{"err":k},"denote":b}
+{"op":"find","tree":T,"search":S,"direct":b,"scope":[[name,path]]}
+   → {"ok":[["tree",path]|["slice",[paths]]|["list",[items]]|["len",[items]]]}|{"err":k}
+{"op":"quantify",…} likewise → {"ok":[items]}
+
+Paths are child-index strings ("" = root, "0.2" = third child of the first child).  The driver labels
+every node of the tree with its path (in the `sender` field, which no modelled function reads), so the
+pure model reports *which* nodes it found.  `cfg` defaults to what the translator read from the source
+(`Generated.consCfg`).
+-/
 import Driver.Common
+import Model.Constraint
+import Generated.Cons
 open Lean FV FV.Drv
 
-def handle (_ : Json) : Except String Json := throw "driver not implemented"
+def arrOf (j : Json) : Except String (Array Json) := j.getArr?
+
+def tagOf (a : Array Json) : Except String String := (a[0]?.getD Json.null).getStr?
+
+def strCps (j : Json) : Except String Str := natArr j
+
+def optInt (j : Json) : Except String (Option Int) :=
+  match j with
+  | .null => pure none
+  | _ => do return some (← j.getInt?)
+
+def optNat (j : Json) : Except String (Option Nat) :=
+  match j with
+  | .null => pure none
+  | _ => do return some (← j.getNat?)
+
+def slcOf (j : Json) : Except String Slc := do
+  let a ← arrOf j
+  match ← tagOf a with
+  | "idx" => return .idx (← (a[1]?.getD Json.null).getInt?)
+  | "slice" => return .slice (← optInt (a[1]?.getD Json.null)) (← optInt (a[2]?.getD Json.null))
+                             (← optNat (a[3]?.getD Json.null))
+  | t => throw s!"bad slice tag {t}"
+
+partial def searchOf (j : Json) : Except String Search := do
+  let a ← arrOf j
+  match ← tagOf a with
+  | "rule" => return .rule (← (a[1]?.getD Json.null).getStr?)
+  | "attr" => return .attr (← searchOf (a[1]?.getD Json.null)) (← searchOf (a[2]?.getD Json.null))
+  | "desc" => return .desc (← searchOf (a[1]?.getD Json.null)) (← searchOf (a[2]?.getD Json.null))
+  | "item" =>
+    let sl ← (← arrOf (a[2]?.getD Json.null)).toList.mapM slcOf
+    return .item (← searchOf (a[1]?.getD Json.null)) sl
+  | "star" => return .star (← searchOf (a[1]?.getD Json.null))
+  | "len" => return .len (← searchOf (a[1]?.getD Json.null))
+  | t => throw s!"bad search tag {t}"
+
+def refOf (j : Json) : Except String Ref := do
+  let a ← arrOf j
+  match ← tagOf a with
+  | "ph" => return .ph (← (a[1]?.getD Json.null).getNat?)
+  | "var" => return .var (← (a[1]?.getD Json.null).getStr?)
+  | t => throw s!"bad ref tag {t}"
+
+def stermOf (j : Json) : Except String STerm := do
+  let a ← arrOf j
+  match ← tagOf a with
+  | "lit" => return .lit (← strCps (a[1]?.getD Json.null))
+  | "str" => return .strOf (← refOf (a[1]?.getD Json.null))
+  | t => throw s!"bad sterm tag {t}"
+
+def itermOf (j : Json) : Except String ITerm := do
+  let a ← arrOf j
+  match ← tagOf a with
+  | "lit" => return .lit (← (a[1]?.getD Json.null).getInt?)
+  | "int" => return .intOf (← refOf (a[1]?.getD Json.null))
+  | "len" => return .lenOf (← refOf (a[1]?.getD Json.null))
+  | t => throw s!"bad iterm tag {t}"
+
+def opOf (j : Json) : Except String CmpOp := do
+  match ← j.getStr? with
+  | "==" => return .eq | "!=" => return .ne | "<" => return .lt
+  | "<=" => return .le | ">" => return .gt | ">=" => return .ge
+  | t => throw s!"bad operator {t}"
+
+def cmpOf (j : Json) : Except String Cmp := do
+  let a ← arrOf j
+  match ← tagOf a with
+  | "s" => return .s (← opOf (a[1]?.getD Json.null)) (← stermOf (a[2]?.getD Json.null)) (← stermOf (a[3]?.getD Json.null))
+  | "i" => return .i (← opOf (a[1]?.getD Json.null)) (← itermOf (a[2]?.getD Json.null)) (← itermOf (a[3]?.getD Json.null))
+  | t => throw s!"bad cmp tag {t}"
+
+partial def bexprOf (j : Json) : Except String BExpr := do
+  let a ← arrOf j
+  match ← tagOf a with
+  | "tt" => return .tt
+  | "ff" => return .ff
+  | "cmp" => return .cmp (← cmpOf (a[1]?.getD Json.null))
+  | "sw" => return .startsWith (← stermOf (a[1]?.getD Json.null)) (← strCps (a[2]?.getD Json.null))
+  | "in" => return .inStar (← strCps (a[1]?.getD Json.null)) (← refOf (a[2]?.getD Json.null))
+  | "not" => return .not (← bexprOf (a[1]?.getD Json.null))
+  | "and" => return .and (← bexprOf (a[1]?.getD Json.null)) (← bexprOf (a[2]?.getD Json.null))
+  | "or" => return .or (← bexprOf (a[1]?.getD Json.null)) (← bexprOf (a[2]?.getD Json.null))
+  | t => throw s!"bad bexpr tag {t}"
+
+def boundOf (j : Json) : Except String Bound := do
+  let a ← arrOf j
+  match ← tagOf a with
+  | "nt" => return .nt (← (a[1]?.getD Json.null).getStr?)
+  | "var" => return .var (← (a[1]?.getD Json.null).getStr?)
+  | t => throw s!"bad bound tag {t}"
+
+def consLOfList : List Cons → ConsL
+  | [] => .nil
+  | c :: cs => .cons c (consLOfList cs)
+
+partial def consOf (j : Json) : Except String Cons := do
+  let a ← arrOf j
+  match ← tagOf a with
+  | "expr" =>
+    let ss ← (← arrOf (a[2]?.getD Json.null)).toList.mapM searchOf
+    return .expr (← bexprOf (a[1]?.getD Json.null)) ss
+  | "cmp" =>
+    let ss ← (← arrOf (a[2]?.getD Json.null)).toList.mapM searchOf
+    return .cmp (← cmpOf (a[1]?.getD Json.null)) ss
+  | "conj" =>
+    let cs ← (← arrOf (a[2]?.getD Json.null)).toList.mapM consOf
+    return .conj (← (a[1]?.getD Json.null).getBool?) (consLOfList cs)
+  | "disj" =>
+    let cs ← (← arrOf (a[2]?.getD Json.null)).toList.mapM consOf
+    return .disj (← (a[1]?.getD Json.null).getBool?) (consLOfList cs)
+  | "impl" => return .impl (← consOf (a[1]?.getD Json.null)) (← consOf (a[2]?.getD Json.null))
+  | "all" =>
+    return .all (← (a[1]?.getD Json.null).getBool?) (← boundOf (a[2]?.getD Json.null))
+      (← searchOf (a[3]?.getD Json.null)) (← consOf (a[4]?.getD Json.null))
+  | "any" =>
+    return .any (← (a[1]?.getD Json.null).getBool?) (← boundOf (a[2]?.getD Json.null))
+      (← searchOf (a[3]?.getD Json.null)) (← consOf (a[4]?.getD Json.null))
+  | t => throw s!"bad constraint tag {t}"
+
+/-! ### path labels -/
+
+def joinPath (p : String) (i : Nat) : String := if p.isEmpty then toString i else p ++ "." ++ toString i
+
+partial def label (p : String) : Tree → Tree
+  | .mk s _ r ks => .mk s (some p) r ((ks.zipIdx).map (fun (k, i) => label (joinPath p i) k))
+
+def parsePath (s : String) : Except String (List Nat) :=
+  if s.isEmpty then pure []
+  else (s.splitOn ".").mapM (fun x => match x.toNat? with
+    | some n => pure n
+    | none => throw s!"bad path {s}")
+
+def subtree (t : Tree) : List Nat → Except String Tree
+  | [] => pure t
+  | i :: is => match t.kids[i]? with
+    | some k => subtree k is
+    | none => throw "path does not exist in the tree"
+
+def jItem : Tree → Json
+  | .mk .slice _ _ ks => Json.arr #["slice", Json.arr (ks.map (fun k => jOptStr k.sender)).toArray]
+  | t => Json.arr #["tree", jOptStr t.sender]
+
+def jCont : Cont → Json
+  | .tree t => jItem t
+  | .list ts => Json.arr #["list", Json.arr (ts.map jItem).toArray]
+  | .len ts => Json.arr #["len", Json.arr (ts.map jItem).toArray]
+
+def jSErr : SErr → Json
+  | .index => Json.mkObj [("err", "index")]
+  | .type => Json.mkObj [("err", "type")]
+  | .value => Json.mkObj [("err", "value")]
+
+partial def asciiText : Tree → Bool
+  | .mk (.term (.text s)) _ _ _ => s.all (· < 128)
+  | .mk (.term _) _ _ _ => false
+  | .mk _ _ _ ks => ks.all asciiText
+
+def dictOf (t : Tree) (j : Option Json) : Except String (List (String × Tree)) :=
+  match j with
+  | none => pure []
+  | some j => do
+    let a ← arrOf j
+    a.toList.mapM (fun e => do
+      let p ← arrOf e
+      let k ← (p[0]?.getD Json.null).getStr?
+      let path ← parsePath (← (p[1]?.getD Json.null).getStr?)
+      return (k, ← subtree t path))
+
+def cfgOf (j : Json) : Except String OpCfg :=
+  match (j.getObjVal? "cfg").toOption with
+  | none => pure Generated.consCfg
+  | some .null => pure Generated.consCfg
+  | some c => do
+    let b ← c.getObjValAs? String "binding"
+    let skip ← c.getObjValAs? Bool "skip"
+    let m ← (match b with
+      | "copy" => pure Binding.copy
+      | "shared" => pure Binding.shared
+      | x => throw s!"bad binding {x}")
+    return ⟨m, skip⟩
+
+def jFit (f : Fit) : Json :=
+  let (num, den) := match f.dist with
+    | some vs => if vs.isEmpty then (0, 1) else (vs.countP id, vs.length)
+    | none => if f.total = 0 then (0, 1) else (f.solved, f.total)
+  Json.mkObj [("solved", Json.num f.solved), ("total", Json.num f.total), ("success", Json.bool f.success),
+              ("num", Json.num num), ("den", Json.num den), ("dist", Json.bool f.dist.isSome)]
+
+def handle (j : Json) : Except String Json := do
+  let op ← j.getObjValAs? String "op"
+  let t0 ← treeOf (← j.getObjVal? "tree")
+  if !asciiText t0 then throw "tree has a leaf that is not ASCII text (not modelled)"
+  let t := label "" t0
+  let σ ← dictOf t (j.getObjVal? "scope").toOption
+  match op with
+  | "eval" =>
+    let c ← consOf (← j.getObjVal? "cons")
+    let ρ ← dictOf t (j.getObjVal? "locals").toOption
+    let cfg ← cfgOf j
+    let typed := c.typed (ρ.map (·.1))
+    if !typed then throw "ill-typed constraint program"
+    let fit := match opFit cfg c t σ ρ with
+      | .error e => Json.mkObj [("err", (jSErr e).getObjValD "err")]
+      | .ok (f, _, _) => Json.mkObj [("ok", jFit f)]
+    return Json.mkObj [("fit", fit), ("denote", Json.bool (denote c t σ ρ))]
+  | "find" =>
+    let s ← searchOf (← j.getObjVal? "search")
+    let direct := (j.getObjValAs? Bool "direct").toOption.getD false
+    match Search.findG direct s t σ with
+    | .error e => return jSErr e
+    | .ok cs => return Json.mkObj [("ok", Json.arr (cs.map jCont).toArray)]
+  | "quantify" =>
+    let s ← searchOf (← j.getObjVal? "search")
+    match s.quantify t σ with
+    | .error e => return jSErr e
+    | .ok ts => return Json.mkObj [("ok", Json.arr (ts.map jItem).toArray)]
+  | _ => throw s!"unknown op {op}"
 
 def main : IO Unit := run handle
